@@ -742,6 +742,16 @@ class Operation(metaclass=abc.ABCMeta):
         return self
 
 
+def _tags_from_json(tags: Iterable[Any]) -> tuple[Hashable, ...]:
+    """Tags as read from JSON: a tuple tag is written as a JSON array and comes back as a list,
+    which cannot be a tag (tags are hashable) and would not equal the original."""
+
+    def restore(tag: Any) -> Any:
+        return tuple(restore(t) for t in tag) if isinstance(tag, list) else tag
+
+    return tuple(restore(tag) for tag in tags)
+
+
 @value.value_equality
 class TaggedOperation(Operation):
     """Operation annotated with a set of tags.
@@ -839,7 +849,7 @@ class TaggedOperation(Operation):
 
     @classmethod
     def _from_json_dict_(cls, sub_operation, tags, **kwargs):
-        return cls(sub_operation, *tags)
+        return cls(sub_operation, *_tags_from_json(tags))
 
     def _json_dict_(self) -> dict[str, Any]:
         return protocols.obj_to_dict_helper(self, ['sub_operation', 'tags'])
